@@ -240,6 +240,15 @@ std::string handle1(std::vector<std::string> const &t)
     auto const i = static_cast<std::size_t>(vh::to_ull(t[2]));
     std::string const r1 = optref(fcppt::container::at_optional(v, i));
     std::string const r2 = optref(fcppt::container::at_optional(d, i));
+    {
+      // the result refers to the element inside the container (no copy): writing through it changes the container
+      auto const ra = fcppt::container::at_optional(v, i);
+      if (ra.has_value() && (i >= v.size() || &ra.get_unsafe().get() != &v[i]))
+        return "ref-identity-fail";
+      auto const rd = fcppt::container::at_optional(d, i);
+      if (rd.has_value() && (i >= d.size() || &rd.get_unsafe().get() != &d[i]))
+        return "ref-identity-fail";
+    }
     std::vector<long long> const &cv = v;
     std::string const r3 = optref(fcppt::container::at_optional(cv, i));
     // a std::string (characters '0' + value) and a vector of heap strings
@@ -264,6 +273,14 @@ std::string handle1(std::vector<std::string> const &t)
     std::deque<long long> d(v0.begin(), v0.end());
     std::string const r1 = optref(op == "front" ? fcppt::container::maybe_front(v) : fcppt::container::maybe_back(v));
     std::string const r2 = optref(op == "front" ? fcppt::container::maybe_front(d) : fcppt::container::maybe_back(d));
+    {
+      auto const rv = op == "front" ? fcppt::container::maybe_front(v) : fcppt::container::maybe_back(v);
+      if (rv.has_value() && (v.empty() || &rv.get_unsafe().get() != (op == "front" ? &v.front() : &v.back())))
+        return "ref-identity-fail";
+      auto const rd = op == "front" ? fcppt::container::maybe_front(d) : fcppt::container::maybe_back(d);
+      if (rd.has_value() && (d.empty() || &rd.get_unsafe().get() != (op == "front" ? &d.front() : &d.back())))
+        return "ref-identity-fail";
+    }
     std::list<std::string> ls;
     for (auto const e : v0)
       ls.push_back(long_string(e));
@@ -289,6 +306,15 @@ std::string handle1(std::vector<std::string> const &t)
       vs.push_back(long_string(e));
       ds.push_back(long_string(e));
       ls.push_back(long_string(e));
+    }
+    {
+      std::string str;
+      for (auto const e : v0)
+        str.push_back(static_cast<char>('0' + e));
+      auto const ps = fcppt::container::pop_back(str);
+      std::string const rs = (ps.has_value() ? "some " + std::to_string(ps.get_unsafe() - '0') : std::string{"none"}) + " rest=" + vh::join(std::vector<long long>(v.begin(), v.end()));
+      if (rs != r1 || str.size() != v.size())
+        return "containers-disagree-string " + r1 + " / " + rs;
     }
     std::string const p3 = optlong(fcppt::container::pop_back(vs));
     std::string const r3 = p3 + " rest=" + join_long(vs);
